@@ -66,6 +66,7 @@ type c08E2EGrammar struct {
 	nested  bool
 	opts    string
 	recCanc bool
+	recMini bool
 }
 
 func c08E2EGrammarText(r *rand.Rand, pkg string) c08E2EGrammar {
@@ -87,6 +88,12 @@ func c08E2EGrammarText(r *rand.Rand, pkg string) c08E2EGrammar {
 	}
 	if opt {
 		opts = append(opts, "optimizeTables = true")
+	}
+	// minimizeDFA merges the final states of the predicate inputs, which the generated
+	// lookahead() must not confuse with each other (memoization of recursive lookaheads)
+	mini := r.Intn(2) == 0
+	if mini {
+		opts = append(opts, "minimizeDFA = true")
 	}
 	for _, o := range opts {
 		b.WriteString(o + "\n")
@@ -152,7 +159,7 @@ func c08E2EGrammarText(r *rand.Rand, pkg string) c08E2EGrammar {
 		}
 		b.WriteString(";\n\n")
 	}
-	return c08E2EGrammar{text: b.String(), leaves: leaves, nPred: n, nested: nested, opts: strings.Join(opts, ","), recCanc: canc && rec}
+	return c08E2EGrammar{text: b.String(), leaves: leaves, nPred: n, nested: nested, opts: strings.Join(opts, ","), recCanc: canc && rec, recMini: rec && mini}
 }
 
 func c08E2E(c *fw.Ctx) {
@@ -205,6 +212,9 @@ func c08E2E(c *fw.Ctx) {
 		}
 		if g.recCanc {
 			c.Count("e2e_grammars_recursive_cancellable", 1)
+		}
+		if g.recMini {
+			c.Count("e2e_grammars_recursive_minimized", 1)
 		}
 	}
 	c.Sample(map[string]any{"e2e_grammar": gs[0].text})
